@@ -36,6 +36,22 @@ def gen_cases(seed, n, depth):
         cases.append((forms, ATOMS))
     return cases
 
+def alias_cases(seed, n):
+    """one program, two spellings / near-duplicates of one formula (formula caching by representation)"""
+    r = random.Random(seed)
+    cases = []
+    for i in range(n):
+        if i % 3 < 2:
+            a, b = gen.alias_pair(r, ATOMS, depth=r.randint(0, 1))
+            forms = [a, b]
+        else:
+            f = gen.gen_sform(r, r.randint(2, 3), ATOMS)
+            forms = [f, gen.near_variants(r, f)]
+        if r.random() < 0.5:
+            forms.reverse()
+        cases.append((forms, ATOMS))
+    return cases
+
 def _corr_chunk(args):
     seed, cases, H = args
     tot = {"pairs": 0, "equations_evaluated": 0, "horizons": 0, "programs": 0}
@@ -50,7 +66,7 @@ def _corr_chunk(args):
             d = [{"layer": "L4", "text": text, "what": "exception in the implementation: {}: {}".format(tl.classify_exc(e), str(e)[:200]), "forms": forms}]
             st = {"pairs": 0, "equations_evaluated": 0, "horizons": 0}
         for k in st:
-            tot[k] += st[k]
+            tot[k] = tot.get(k, 0) + st[k]
         tot["programs"] += 1
         for x in d:
             x["forms"] = forms
@@ -67,7 +83,7 @@ def correspondence(ctx):
     dis = []
     for st, d in par.pmap(_corr_chunk, work, ctx.jobs):
         for k in st:
-            tot[k] += st[k]
+            tot[k] = tot.get(k, 0) + st[k]
         dis += d
     ops = {}
     def count(f):
@@ -100,7 +116,7 @@ def search(ctx, deep):
     n = (60 if ctx.tier == "quick" else 1200) * (3 if deep else 1)
     depth = 3 if ctx.tier == "quick" else 4
     H = 3
-    cases = corpus_cases() + grid_cases(ctx.seed + 1, ctx.tier) + gen_cases(ctx.seed * 77 + 5, n, depth)
+    cases = corpus_cases() + grid_cases(ctx.seed + 1, ctx.tier) + alias_cases(ctx.seed * 59 + 2, n // 2) + gen_cases(ctx.seed * 77 + 5, n, depth)
     # inputs on which the model and the implementation disagreed are tried first
     hinted = [(d["forms"], ATOMS) for d in getattr(ctx, "hints", []) if "forms" in d][:50]
     cases = hinted + cases
